@@ -117,8 +117,10 @@ class Injector:
                         out.fail = "timeout"
                     else:
                         out.fail = "refused"
+                    out.before_headers = out.before_body = 0.0  # the injected outcome is immediate (a slow answer could be pre-empted by the client's own request timeout)
                 elif me.fired_at is not None and kind == "refused-continue" and rec["task"] == f["task"] and rec["client"] == f["phys_client"] and rec["logical"] == f["ordinal"]:
                     out.fail = "refused"  # elastic-transport retries a refused connection: keep refusing
+                    out.before_headers = out.before_body = 0.0
                 return out
 
             sim.script = script
@@ -166,6 +168,14 @@ class Injector:
                             return None
                         victim = workers[f["at_message"] % len(workers)]
                         me.fired_at = kernel.clock.now
+                        w = victim.inst
+                        try:
+                            if w.client_allocations is not None and w.current_task_index == len(w.client_allocations.allocations[0]["tasks"]) - 1:
+                                # the victim has already reached (and reported) the final join point: its part of the benchmark is over,
+                                # only teardown is left - "too late"
+                                me.too_late = True
+                        except Exception:
+                            pass
                         kernel.kill(victim.addr)
 
             k.observers.append(observer)
